@@ -13,18 +13,27 @@ Proof      : coq/Props/C20.v -- C20_refine_s3 / C20_refine_local / C20_backends_
              of every open of every history names an object that exists, within its size);
              C20_range_equiv / C20_range_negative_seek / C20_seek_invalid_whence (every content, every seek/read
              program), C20_retry_* / C20_s3_retry_* (every outcome script), C20_s3_retry_definitive (every error on an
-             INDEPENDENT list of definitive S3 answers surfaces with the attempt that met it).
+             INDEPENDENT list of definitive S3 answers -- Model/Retry.v definitive_codes, from the S3 error-code reference,
+             NOT a subset of the library's table as it was found: access / credentials / bucket and the request itself
+             refused (InvalidArgument, InvalidRequest, InvalidURI, KeyTooLongError, InvalidRange, MethodNotAllowed) --
+             surfaces with the attempt that met it; proved against the REGENERATED table, so it holds only of a library
+             whose table has them all: finding retry-contract:definitive-client-error-retried, repaired by a fix: commit).
              Faults inside histories (Model/BackendFault.v = the retry loop composed with every backend method as the
              source wraps it, a positional fault plan per operation, faults BEFORE or AFTER the request took effect):
              C20_s3_faulty_masks_partial -- transient faults, at most max_retries per operation, at any request (a PUT
              that landed and was answered with an error, any page of a listing, get_size's HEAD, any ranged GET of a
              reader) change no result of any history, PROVIDED the request with index max_retries (the operation's last
-             attempt) is answered and CAS writes are fault-free.  The statement without the first proviso
-             (C20_s3_faulty_masks_full) is FALSE of the code as it is: C20_s3_faulty_masks_refuted -- a not-found
-             answer is retried like a transient error (C20_not_found_retried, C20_not_found_immediate_refuted) and
-             uses up the budget, so one transient error on request max_retries+1 of a read of a missing key
-             surfaces instead of FileNotFoundError (finding retry-contract:not-found-uses-up-budget, reported by the
-             oracle below on every run).  C20_cas_put_fault_surfaces: write_file_cas is not under the retry.
+             attempt) is answered and CAS writes are fault-free.  The property's sentence itself, with NO proviso
+             (C20_s3_faulty_masks_full: transient faults, at most max_retries per operation, any operation incl. the CAS
+             writer, any request) is FALSE of the code as it is, for two independent reasons: C20_s3_faulty_masks_refuted
+             -- a not-found answer is retried like a transient error (C20_not_found_retried,
+             C20_not_found_immediate_refuted) and uses up the budget, so one transient error on request max_retries+1 of a
+             read of a missing key surfaces instead of FileNotFoundError (finding
+             retry-contract:not-found-uses-up-budget, reported by the oracle below on every run);
+             C20_s3_faulty_masks_refuted_by_cas -- write_file_cas is not under the retry (C20_cas_put_fault_surfaces), one
+             transient error on its conditional PUT surfaces.  Each proviso alone does not suffice:
+             C20_s3_faulty_masks_modulo_cas_refuted (the statement formerly called _full),
+             C20_s3_faulty_masks_modulo_last_attempt_refuted.
              Regenerated from the source on every run:  Gen/GenS3.v (key mapping, listing Prefix, prefix
              stripping, constructor prefix, create_storage_backend's join, not-found / CAS / permanent code
              literals, retry defaults) and Gen/GenRange.v (S3RangeFile.seek / readinto / readall integer kernels,
@@ -65,6 +74,16 @@ Oracles    : implementation only, judged by the property text (no model involved
                range-not-in-object      every ranged GET an Open issues must name an existing object, within its size
                range-file               S3RangeFile and open_seekable()'s BufferedReader vs a real local file
                                         (FileIO / buffered) on the same content; every Range header in range
+               process configuration    every fault campaign below runs under PROCESS-WIDE CONFIGURATIONS (harness/lib/procconf.py):
+                                        every class of transient failure (S3 error response, OSError below botocore,
+                                        BotoCoreError without a response) x every operation x every attempt index x before /
+                                        after  x  {library as imported, process at DEBUG}; random histories, listings and retry
+                                        scripts rotate through DEBUG via set_level / module loggers / root logger, quieter
+                                        levels and logging.disable; the library is never run with logging switched off
+                                        (records are formatted and written to a sink)
+               definitive codes         a store answering every request with a code of DEFINITIVE_CLIENT_CODES (independent of
+                                        the library's table): 9 operations x default / DEBUG must raise that ClientError after
+                                        exactly ONE request and no sleep
                retry-contract           attempts / result / sleeps of with_s3_retry judged directly; transient faults
                                         (<= max_retries per operation, before / after the effect) at ANY request index
                                         of an operation -- no index is exempt, also not the one that is the retry
@@ -116,23 +135,35 @@ MANIFEST_ENTRY = {
                   "C20_range_equiv for every content and seek/read program (bytes, positions, negative target = error, every "
                   "Range within 0<=first<=last<size), C20_retry_* for every outcome script (masking within budget, permanent "
                   "errors surface at once, exhaustion after exactly max+1 attempts, nothing swallowed or invented), "
-                  "C20_s3_retry_definitive (an independent list of definitive S3 errors surfaces with the attempt that met it); "
+                  "C20_s3_retry_definitive (a list of definitive S3 errors taken from the S3 error reference, not from the library's table -- "
+                  "access / credentials / bucket and request-refused codes InvalidArgument, InvalidRequest, InvalidURI, KeyTooLongError, "
+                  "InvalidRange, MethodNotAllowed -- surfaces with the attempt that met it; proved against the regenerated table: false of "
+                  "the library as found, which retried the request-refused codes max_retries times -- repaired by a fix: commit); "
                   "C20_s3_faulty_masks_partial: the retry loop composed with every backend method (Model/BackendFault.v) -- transient "
                   "faults before or after the effect, at most max_retries per operation, at any request of any operation of any "
                   "history change no result, PROVIDED the request with index max_retries of each operation is answered and CAS "
-                  "writes are fault-free; the statement without the first proviso is REFUTED (C20_s3_faulty_masks_refuted: a not-found "
+                  "writes are fault-free; the property's sentence without any proviso (C20_s3_faulty_masks_full: no CAS exemption, no "
+                  "exempt request) is REFUTED twice (C20_s3_faulty_masks_refuted: a not-found "
                   "answer is retried and uses up the budget -- C20_not_found_retried -- so one transient error on request "
-                  "max_retries+1 of a read of a missing key surfaces; finding retry-contract:not-found-uses-up-budget); "
-                  "C20_cas_put_fault_surfaces (write_file_cas is not under the retry); key "
+                  "max_retries+1 of a read of a missing key surfaces; finding retry-contract:not-found-uses-up-budget; "
+                  "C20_s3_faulty_masks_refuted_by_cas: one transient error on write_file_cas's conditional PUT surfaces -- "
+                  "C20_cas_put_fault_surfaces, write_file_cas is not under the retry), and so is the statement with either proviso alone "
+                  "(C20_s3_faulty_masks_modulo_cas_refuted, C20_s3_faulty_masks_modulo_last_attempt_refuted); key "
                   "mapping, listing Prefix, prefix stripping, code literals, retry defaults, S3RangeFile's seek / readinto / "
                   "readall kernels and open_seekable's wiring (key and size source of the reader) are regenerated from the "
                   "source on every run; models tied to LocalStorageBackend / S3StorageBackend / S3RangeFile / with_s3_retry by "
                   "differential execution over in-memory S3 stores through one to four backend instances over one or two stores "
-                  "with the same names, with and without injected faults; implementation-only oracles search for a failing input",
+                  "with the same names, with and without injected faults, the fault campaigns under process-wide configurations (every "
+                  "transient fault class x library default / DEBUG, other logging configurations in rotation; logging never disabled by "
+                  "the harness); implementation-only oracles search for a failing input",
     "level_note": "trusted: Coq kernel; translator/gen_s3.py, translator/gen_range.py (+ golden AST digests of the hand-modelled "
                   "functions); a reader is used within one operation (the object does not change while it is read); the CAS "
                   "writer is modelled only as used correctly in a sequential history (tag just read) and its conditional PUT is "
-                  "outside the masking theorem (not retried by design); the S3 "
+                  "outside the masking theorem: it is not retried BY DESIGN (a re-sent conditional PUT whose first copy landed is refused "
+                  "and would be reported as a conflict; the local backend has no CAS writer to compare with), so its surfacing transient "
+                  "error is stated (C20_s3_faulty_masks_refuted_by_cas) and not reported as a violation; the process configuration "
+                  "(log levels) is a dimension of the oracles only -- the Coq model of the retry loop has no logging, the loop's text is "
+                  "pinned by a golden AST digest; the S3 "
                   "object-store model (strong consistency, GET/HEAD/PUT/DELETE/list-by-string-prefix, NoSuchKey/404) as "
                   "implemented by harness/lib/fakes3.py; local theorem assumes no WRITTEN key is a directory of another written key and no "
                   "'.'/'..'/empty segments (path normalisation is C17); LocalStorageBackend is hand-modelled (no translator; tied by the "
